@@ -10,5 +10,5 @@ Definition pick (keys : list string) (t : list (string * string)) : list (string
 
 (* the normalised ASTs of both fire_event and start are the ones NetModel.v was transliterated from *)
 Lemma digests_tied :
-  pick [ "petri_net/logic.py:PetriNetLogic.fire_event"; "scheduler.py:Scheduler.fire_event"; "scheduler.py:Scheduler.start" ]%string digests_from_source = pick [ "petri_net/logic.py:PetriNetLogic.fire_event"; "scheduler.py:Scheduler.fire_event"; "scheduler.py:Scheduler.start" ]%string expected_digests.
+  pick [ "petri_net/logic.py:PetriNetLogic.fire_event"; "scheduler.py:Scheduler.fire_event"; "scheduler.py:Scheduler._fire_event"; "scheduler.py:Scheduler.start" ]%string digests_from_source = pick [ "petri_net/logic.py:PetriNetLogic.fire_event"; "scheduler.py:Scheduler.fire_event"; "scheduler.py:Scheduler._fire_event"; "scheduler.py:Scheduler.start" ]%string expected_digests.
 Proof. vm_compute. reflexivity. Qed.
